@@ -15,6 +15,7 @@ import (
 	"bufio"
 	"encoding/hex"
 	"encoding/json"
+	"errors"
 	"flag"
 	"fmt"
 	"math/rand/v2"
@@ -22,14 +23,24 @@ import (
 	"path/filepath"
 	"sort"
 	"strings"
+	"time"
 )
 
 // executors: op name -> function running the implementation on the arguments.
 var executors = map[string]func(args []string) string{}
 
-// execLine runs one op line on the implementation; a panic anywhere inside
-// the implementation is the canonical result "panic".
-func execLine(line string) (out string) {
+// hung is set once an op did not return within the watchdog period: its goroutine is still stuck
+// somewhere inside the implementation (possibly holding the harness lock), so nothing more is
+// executed in this process.
+var hung bool
+
+var errHungStop = errors.New("stop after hang")
+
+const watchdog = 20 * time.Second
+
+// execLine runs one op line on the implementation; a panic anywhere inside the implementation is
+// the canonical result "panic", an op that does not return is "HANG".
+func execLine(line string) string {
 	toks := strings.Fields(line)
 	if len(toks) == 0 {
 		return "bad-op"
@@ -38,12 +49,25 @@ func execLine(line string) (out string) {
 	if !ok {
 		return "bad-op"
 	}
-	defer func() {
-		if r := recover(); r != nil {
-			out = "panic"
-		}
+	if hung {
+		return "not-run-after-hang"
+	}
+	done := make(chan string, 1)
+	go func() {
+		defer func() {
+			if r := recover(); r != nil {
+				done <- "panic"
+			}
+		}()
+		done <- fn(toks[1:])
 	}()
-	return fn(toks[1:])
+	select {
+	case out := <-done:
+		return out
+	case <-time.After(watchdog):
+		hung = true
+		return "HANG"
+	}
 }
 
 // Emitter collects op lines and implementation results for one stream.
@@ -72,6 +96,9 @@ func (e *Emitter) Emit(op string) string {
 		e.samples = append(e.samples, s)
 	}
 	e.nontriv[op] = struct{}{}
+	if result == "HANG" {
+		panic(errHungStop)
+	}
 	return result
 }
 
@@ -155,14 +182,35 @@ func main() {
 			h = (h ^ uint64(c)) * 1099511628211
 		}
 		rng := rand.New(rand.NewPCG(*seed, h))
-		fn(e, rng, *tier)
+		func() {
+			// after a hang the stuck goroutine may be burning memory: stop generating at once
+			defer func() {
+				if r := recover(); r != nil && r != errHungStop {
+					panic(r)
+				}
+			}()
+			fn(e, rng, *tier)
+		}()
 		e.ops.Flush()
 		e.impl.Flush()
 		opsF.Close()
 		implF.Close()
+		if hung {
+			// the remaining streams cannot run in this process
+			for _, rest := range names {
+				if _, err := os.Stat(filepath.Join(*out, rest+".ops")); err != nil {
+					_ = os.WriteFile(filepath.Join(*out, rest+".ops"), nil, 0o644)
+					_ = os.WriteFile(filepath.Join(*out, rest+".impl"), nil, 0o644)
+					_ = os.WriteFile(filepath.Join(*out, rest+".stats.json"), []byte(`{"ops":0,"kinds":{},"classes":{},"distinct_nontrivial":0,"samples":[]}`), 0o644)
+				}
+			}
+		}
 		stats := map[string]any{"stream": name, "ops": e.n, "kinds": e.kinds, "classes": e.classes,
 			"distinct_nontrivial": len(e.nontriv), "samples": e.samples}
 		data, _ := json.MarshalIndent(stats, "", " ")
 		_ = os.WriteFile(filepath.Join(*out, name+".stats.json"), data, 0o644)
+		if hung {
+			os.Exit(0)
+		}
 	}
 }
